@@ -219,7 +219,7 @@ def build_spec(c):
             # a concatenation one of whose elements is a transformed parameter with a parameter inside its transform
             {"id": "aff", "type": "TransformedParameter", "transform": "torch.distributions.AffineTransform", "parameters": {"loc": tt.P("aff.loc", [0.4]), "scale": 2.0},
              "x": tt.P("aff.x", [0.2, -0.3])},
-            {"id": "ncat", "type": "Distribution", "distribution": "torch.distributions.Normal", "x": [tt.P("ca", [0.5]), "aff"], "parameters": {"loc": tt.P("lcat", [0.1]), "scale": tt.P("scat", [1.7])}},
+            {"id": "ncat", "type": "Distribution", "distribution": "torch.distributions.Normal", "x": [tt.P("ca", [0.5]), "aff"], "parameters": {"loc": tt.P("lcat", [0.1, -0.2, 0.3]), "scale": tt.P("scat", [1.7, 0.9, 1.2])}},
             {"id": "joint", "type": "JointDistributionModel", "distributions": ["n1", "n2", "n3", "nbase", "gam", "ln", "scale", "tb", "tv", "ncat"]},
         ]
         dom = {"base": "real", "loc": "real", "scale.unres": "real", "s2": "pos", "a": "pos", "b": "pos", "conc": "pos", "s3": "pos", "lb": "real", "sb": "pos", "l3": "real", "s3b": "pos",
@@ -467,6 +467,8 @@ def body(c):
             d = {"ExpTransform": "pos", "SigmoidTransform": "unit", "StickBreakingTransform": "simplex", "AffineTransform": "real"}.get(trn)
             if d is None:
                 continue
+            if isinstance(tp.x, ViewParameter) and tp.x.parameter.tensor.requires_grad:
+                continue  # assignment goes through the view: torch forbids in-place modification of a leaf that requires grad
             v = new_values(d, tuple(cur.shape), op["u"], None, dic)
 
             def f():
